@@ -383,12 +383,12 @@ pub fn canary_c01_parse_header(ih: IndexHeader, bytes: &[u8])
 ] + TAIL
 
 OBLIGATIONS = {
-    'Header::parse': ['C01', 'C14', 'C04', 'C16'],
-    'Header::parse_header': ['C01', 'C14', 'C04', 'C05', 'C16'],
+    'Header::parse': ['C01', 'C14', 'C04', 'C16', 'C03', 'C02'],   # C03/C02: the digests / signatures are computed over ser(parsed header)
+    'Header::parse_header': ['C01', 'C14', 'C04', 'C05', 'C16', 'C03', 'C02'],
     'Header::padding_required': ['C01'],
-    'Header::parse_signature': ['C01', 'C14', 'C04', 'C16'],
-    'PackageMetadata::parse': ['C01', 'C14', 'C04', 'C16'],
-    'Package::parse': ['C01', 'C14', 'C04'],
+    'Header::parse_signature': ['C01', 'C14', 'C04', 'C16', 'C03', 'C02'],
+    'PackageMetadata::parse': ['C01', 'C14', 'C04', 'C16', 'C03', 'C02'],
+    'Package::parse': ['C01', 'C14', 'C04', 'C03', 'C02'],
     'c01_roundtrip_metadata': ['C01'],
     'lemma_ser_entries_frame': ['C01'],
     'lemma_entry_bytes': ['C01'],
